@@ -7,13 +7,14 @@ import importlib
 import json
 import multiprocessing
 import os
+import signal
 import sys
 import time
 import traceback
 import zlib
 
 from simcan import prims
-from simcan.core import Ctx, Tape, Violation, HarnessError, Hang
+from simcan.core import Ctx, Tape, Violation, HarnessError, Hang, StepCap
 
 VERIF = os.path.dirname(os.path.dirname(os.path.abspath(__file__)))
 EVIDENCE_DIR = os.environ.get("VERIF_EVIDENCE_DIR") or os.path.join(VERIF, "evidence")
@@ -48,17 +49,67 @@ class Outcome:
 PARAMS = {"tier": "quick"}
 
 
+HANG_S = float(os.environ.get("VERIF_HANG_S", "20"))
+
+
+class NoProgress(BaseException):
+    """The code under test spins without ever reaching a simulator primitive."""
+
+
+class _Watch:
+    """Wall-clock watchdog for one run (main thread only): if no simulator step
+    happens between two alarms HANG_S apart, the run is stuck in a loop that
+    never reaches a primitive (the step cap cannot see that)."""
+
+    def __init__(self, ctx):
+        self.ctx = ctx
+        self.last = -1
+        self.armed = False
+        import threading
+        if threading.current_thread() is threading.main_thread() and hasattr(signal, "setitimer"):
+            self.old = signal.signal(signal.SIGALRM, self._fire)
+            signal.setitimer(signal.ITIMER_REAL, HANG_S, HANG_S)
+            self.armed = True
+
+    def _fire(self, signum, frame):
+        steps = self.ctx.steps + self.ctx.tape_len()
+        if steps == self.last:
+            raise NoProgress()
+        self.last = steps
+
+    def stop(self):
+        if self.armed:
+            signal.setitimer(signal.ITIMER_REAL, 0)
+            signal.signal(signal.SIGALRM, self.old)
+
+
 def run_one(prop, prefix=(), seed=0, replay=None, trace=False, params=None):
     """Execute one simulated run.  Pure function of (code, prefix, seed) or of
     (code, replay tape)."""
     tape = Tape(prefix=prefix, seed=seed, replay=replay, keep_labels=trace)
     ctx = Ctx(tape, threaded=getattr(prop, "THREADED", False), trace=trace)
     ctx.params = params or PARAMS
+    ctx.tape_len = lambda: len(tape.values)
     prims.set_current(ctx)
+    watch = _Watch(ctx)
     try:
         try:
             prop.scenario(ctx)
+        except StepCap:
+            watch.stop()
+            key = "%s/livelock/step-cap-exceeded" % prop.ID
+            ctx.log("VIOLATION", key)
+            return Outcome("violation", key, "the run exceeded %d simulator steps (ordinary runs need a few thousand): the code under test keeps polling / "
+                           "retrying without end. Last events: %s" % (ctx.max_steps, (ctx.trace or [])[-6:]), tape.values, ctx.digest(), ctx)
+        except NoProgress:
+            watch.stop()
+            key = "%s/hang/no-simulator-primitive-reached-for-%ds" % (prop.ID, int(HANG_S))
+            ctx.log("VIOLATION", key)
+            return Outcome("violation", key, "the call under test did not return and reached no simulator primitive (clock, queue, lock, bus) "
+                           "for %d s of wall time: an endless loop in the code under test. Last events: %s" % (int(HANG_S), (ctx.trace or [])[-5:]),
+                           tape.values, ctx.digest(), ctx)
         finally:
+            watch.stop()
             for fn in ctx.cleanup:
                 try:
                     fn()
@@ -143,6 +194,9 @@ def _worker(args):
         if out.kind == "violation":
             if len(res["violations"]) < 200:
                 res["violations"].append((index, list(prefix), rseed, out.key, out.msg, out.tape))
+            if "/hang/" in out.key:
+                # every further hang costs 2 x HANG_S of wall time: one is enough
+                hard_deadline = 0
         elif out.kind == "harness":
             if len(res["harness"]) < 20:
                 res["harness"].append((index, list(prefix), rseed, out.key, out.msg, out.tb))
@@ -389,9 +443,12 @@ def main_check(pid, tier, seed, budget_s=None):
         if n_rep > 5:
             print("VIOLATION property=%s (further class %s not minimised)" % (pid, key))
             continue
-        out = run_one(prop, replay=tape)
-        spans = out.ctx.tape.spans
-        small, execs = shrink(prop, tape, spans, key)
+        if "/hang/" in key or "/livelock/" in key:
+            small, execs = list(tape), 0          # every re-execution costs 2 x HANG_S
+        else:
+            out = run_one(prop, replay=tape)
+            spans = out.ctx.tape.spans
+            small, execs = shrink(prop, tape, spans, key)
         path = write_replay(pid, s, index, tier, small, key, msg, prop)
         print("violation class %s: %s" % (key, msg))
         print("  minimised tape %d -> %d entries in %d executions" % (len(tape), len(small), execs))
@@ -399,8 +456,10 @@ def main_check(pid, tier, seed, budget_s=None):
         reported.append(key)
         if rc == 0:
             rc = 1
-    if reported and rc == 2:
-        pass
+    if reported:
+        # a violation was found and has a replay file: that is the verdict, even if
+        # (e.g. because of hangs) not every planned case could be run
+        rc = 1
 
     wall = time.time() - t0
     samples = []
